@@ -6,13 +6,13 @@ import "time"
 
 // Shim for property C19 (work hours).  ADDED to package cfg through `go build -overlay`;
 // together with it the check overlays a DERIVED copy of workhours.go in which the single
-// `time.Now()` call of WorkHours.Work is textually rewritten to `verifC19Now()`, so that the
+// `time.Now()` call of WorkHours.Work is textually rewritten to `verifC19Clock()`, so that the
 // instant the rule is evaluated at can be injected.  Nothing else changes.
 
 // verifC19NowHook: nil = the real clock.
 var verifC19NowHook func() time.Time
 
-func verifC19Now() time.Time {
+func verifC19Clock() time.Time {
 	if h := verifC19NowHook; h != nil {
 		return h()
 	}
